@@ -469,12 +469,27 @@ func checkParam(c paramCase, o *kit.Obs) error {
 		tris := m3.Tris(model3d.NewMeshPolar(f, c.N[0]))
 		return checkClosed3(tris, []kit.V3{{0, 0, 0}, {0.01, 0.02, -0.01}}, []kit.V3{{10, 0, 0}, {0, -10, 1}})
 	case "polar2d":
+		calls := 0
 		f := func(th float64) float64 {
-			return c.P[0] * (1 + c.P[1]*math.Sin(float64(c.N[1])*th+c.P[3]) + c.P[2]*math.Cos(float64(c.N[2])*th))
+			calls++
+			r := c.P[0] * (1 + c.P[1]*math.Sin(float64(c.N[1])*th+c.P[3]) + c.P[2]*math.Cos(float64(c.N[2])*th))
+			if c.N[2] == 1 {
+				// a radius with a state of its own (roughness from a generator, a running filter): every vertex is
+				// still one point, shared by the two segments that meet there
+				r *= 1 + 0.01*float64(calls%7)
+			}
+			return r
 		}
 		segs := m3.Segs(model2d.NewMeshPolar(f, c.N[0]))
 		return checkClosed2(segs, []kit.V2{{0, 0}, {0.01, -0.02}}, []kit.V2{{10, 0}, {0, -10}})
 	case "icosphere":
+		// a mesh a constructor hands out is the caller's: taking faces out of one icosahedron does not show in the next
+		spoil := model3d.NewMeshIcosahedron()
+		for i, t := range spoil.TriangleSlice() {
+			if i%3 == 0 {
+				spoil.Remove(t)
+			}
+		}
 		ctr := kit.V3{c.P[0], c.P[1], c.P[2]}
 		tris := m3.Tris(model3d.NewMeshIcosphere(m3.C3(ctr), c.P[3], c.N[0]))
 		if len(tris) != 20*c.N[0]*c.N[0] {
